@@ -532,17 +532,19 @@ class G:
     def t_unwrap_into(self):
         """`a ?= b` stores into the VARIABLE a: the left side must be a name"""
         n = self.uid()
-        base = ["uo%d: int? = nil" % n, "ur%d = uo%d ?= goi" % (n, n), "ui%d = 5" % n, "us%d = ui%d ?= 7" % (n, n), "ut%d = true" % n, "uu%d = ut%d ?= false" % (n, n)]
+        base = ["uo%d: int? = nil" % n, "ur%d = uo%d ?= goi" % (n, n), "ub%d: bool? = nil" % n, "uu%d = ub%d ?= gob" % (n, n)]
 
         def mut(i, line):
             m = list(base)
             m[i] = line
             return m
         return St("unwrap_into", base,
-                  [("unsupported_operator", mut(3, "us%d = -ui%d ?= 7" % (n, n)), (3, 3), "?= with a negated name on the left"),
-                   ("unsupported_operator", mut(5, "uu%d = !ut%d ?= false" % (n, n)), (5, 5), "?= with a `not` expression on the left"),
-                   ("unsupported_operator", mut(3, "us%d = (ui%d) ?= 7" % (n, n)), (3, 3), "?= with a parenthesised name on the left"),
-                   ("unsupported_operator", mut(3, "us%d = (ui%d + 1) ?= 7" % (n, n)), (3, 3), "?= with an expression on the left"),
+                  [("unsupported_operator", mut(1, "ur%d = -gi ?= goi" % n), (1, 1), "?= with a negated name on the left"),
+                   ("unsupported_operator", mut(3, "uu%d = !gb ?= gob" % n), (3, 3), "?= with a `not` expression on the left"),
+                   ("unsupported_operator", mut(1, "ur%d = -gi ?= 7" % n), (1, 1), "?= with a negated name on the left and a plain value on the right"),
+                   ("unsupported_operator", mut(3, "uu%d = !gb ?= true" % n), (3, 3), "?= with a `not` expression on the left and a plain value on the right"),
+                   ("unsupported_operator", mut(1, "ur%d = (uo%d) ?= goi" % (n, n)), (1, 1), "?= with a parenthesised name on the left"),
+                   ("unsupported_operator", mut(1, "ur%d = (gi + 1) ?= goi" % n), (1, 1), "?= with an expression on the left"),
                    ("unsupported_operator", mut(1, "ur%d = uo%d ?= gs" % (n, n)), (1, 1), "int? ?= str"),
                    ("unknown_name", mut(1, "ur%d = nope%d ?= goi" % (n, n)), (1, 1), "")])
 
